@@ -8,6 +8,7 @@ usage: eval_seeded.py [--dir D] [--only ID] [--also C01,C02] [--tier quick]"""
 import argparse
 import json
 import os
+import re
 import shutil
 import subprocess
 import sys
@@ -22,12 +23,15 @@ def main():
     ap.add_argument("--only", default=None)
     ap.add_argument("--also", default="")
     ap.add_argument("--tier", default="quick")
+    ap.add_argument("--match", default=None, help="regular expression on the change id")
     a = ap.parse_args()
     results = {}
     for name in sorted(os.listdir(a.dir)):
         d = os.path.join(a.dir, name)
         patch = os.path.join(d, "patch.diff")
         if not os.path.isfile(patch) or (a.only and a.only != name):
+            continue
+        if a.match and not re.search(a.match, name):
             continue
         meta = json.load(open(os.path.join(d, "meta.json")))
         prop = meta.get("property", name.split("-")[0])
@@ -45,7 +49,16 @@ def main():
             rr = subprocess.run([sys.executable, os.path.join(VERIF, "checks", "check.py"), p, "--tier", a.tier],
                                 cwd=VERIF, env=env, capture_output=True, text=True)
             viol = [l for l in rr.stdout.split("\n") if l.startswith("VIOLATION")]
-            out[p] = {"exit": rr.returncode, "violations": len(viol),
+            keys = []
+            for l in viol:
+                m = re.search(r"replay=(\S+)", l)
+                try:
+                    first = open(m.group(1)).readline()
+                    k = re.search(r"key=(\S+)", first)
+                    keys.append(k.group(1) if k else first.strip()[:80])
+                except (OSError, AttributeError):
+                    pass
+            out[p] = {"exit": rr.returncode, "violations": len(viol), "keys": keys[:3],
                       "no_failing_input": all("no-failing-input-found" in l for l in viol) if viol else False}
         results[name] = {"property": prop, "checks": out, "caught": out[prop]["exit"] != 0}
         shutil.rmtree(base, ignore_errors=True)
